@@ -300,6 +300,11 @@ class World:
             section, name = key.split('.', 1)
             setattr(getattr(env, section), name, value)
         env.api.snapshot_initial() if hasattr(env.api, 'snapshot_initial') else None
+        # what application/server.py switches on before it builds the reactor (the simulation enters below it)
+        if env.cache.attributes:
+            from exabgp.bgp.message.update.attribute import Attribute
+
+            Attribute.caching = env.cache.attributes
 
         import exabgp.reactor.network.tcp as tcp
         import exabgp.reactor.network.connection as connection
